@@ -550,6 +550,10 @@ class ResourceScenario(ScenarioData):
         ):
             shift = None
         if shift:
+            # Leaves declared inside the shift: nobody who works that shift is there
+            for leave in shift.get("leaves", self.scenarioIdx) or []:
+                if hasattr(leave, "interval") and leave.interval and leave.interval.start <= date < leave.interval.end:
+                    return False
             # Use the shift's working hours
             shift_wh = shift.get("workinghours", self.scenarioIdx)
             if shift_wh and hasattr(shift_wh, "onShift"):
